@@ -687,6 +687,18 @@ class Dataset(AbstractDataset, dict, OpMixin, GetSetDelAttrMixin):
         else:
             values = np.asarray(values)
 
+        if self.axes[axis].size == 0 and values.size > 0:
+            # empty axis: there is nothing to take from, every variable builds its all-missing result
+            name = self.axes[axis].name
+            dataset = self.__class__()
+            for k in self.keys():
+                if name not in self[k].dims:
+                    dataset[k] = self[k] # variables without that dimension are left alone
+                    continue
+                dataset[k] = self[k].reindex_axis(values, axis=name, fill_value=fill_value, raise_error=raise_error, method=method)
+            dataset.attrs.update(self.attrs)
+            return dataset
+
         # same lookup as DimArray.reindex_axis (method='right' searches on the right side)
         indices = locate_many(self.axes[axis].values, values, side=method or 'left')
         dataset = self.take_axis(indices, axis=axis, indexing='position')
